@@ -384,6 +384,14 @@ class HostWorld:
                 world.to_deliver.extend(world.remote_pending)
                 world.remote_pending = []
             if not world.to_deliver:
+                # nothing new from the link layer: a response that had to wait (its virtual qubit was still allocated) is tried again
+                pend = o_.fields.get("_pending_epr_responses") or []
+                if pend:
+                    before = len(pend)
+                    world.I.method(o_, "_handle_pending_epr_responses", [], {}, None)
+                    world.stalled = 0 if len(o_.fields.get("_pending_epr_responses") or []) < before else getattr(world, "stalled", 0) + 1
+                    if world.stalled <= 3:
+                        return None
                 raise C.EvalRaise("Deadlock", "the executor waits for entanglement nobody will deliver")
             req, k, flag = world.to_deliver.pop(0)
             used = set(o_.fields.get("_used_physical_qubit_addresses", set()))
@@ -396,6 +404,8 @@ class HostWorld:
             return None
 
         self.sc.method_overrides["_do_wait"] = do_wait
+        # (the base class retries at once, i.e. recurses, where a real controller sleeps: here it returns and the wait loop comes back)
+        self.sc.method_overrides["_wait_to_handle_epr_responses"] = lambda o_, *a_, **k_: None
 
     def expect_remote_pairs(self, number: int):
         """the remote node creates `number` pairs towards this one (answers a recv request)"""
@@ -411,7 +421,16 @@ class HostWorld:
 
     def host_active_ids(self) -> List[int]:
         qs = self.I.getattr(self.conn, "active_qubits")
-        return sorted(self.I.getattr(q_, "qubit_id") for q_ in qs)
+        ids = [self.I.getattr(q_, "qubit_id") for q_ in qs]
+        if all(isinstance(i_, int) and not isinstance(i_, bool) for i_ in ids):
+            return sorted(ids)
+        # (a handle whose id is still a future - a per-pair handle of a context or post routine left active - is named as such)
+
+        def show(i_):
+            if isinstance(i_, int) and not isinstance(i_, bool):
+                return i_
+            return "<" + (i_.cls.name if isinstance(i_, C.Obj) and i_.cls is not None else type(i_).__name__) + ">"
+        return sorted((show(i_) for i_ in ids), key=str)
 
     # -- the wire --------------------------------------------------------------------------------------------------------------
     def deliver(self):
